@@ -125,6 +125,20 @@ class Units:
                 return self.attr_unit(cls.name, e.attr)
             return None
         if isinstance(e, ast.Name) and fn is not None:
+            # the definition that reaches this use, when it sits unconditionally before it in the same block
+            st = e
+            while st is not None and not isinstance(st, ast.stmt):
+                st = getattr(st, "_parent", None)
+            if st is not None:
+                from ..astutil import reaching_value
+                rv = reaching_value(st, e.id)
+                if rv is not None and not any(isinstance(x, ast.Name) and x.id == e.id for x in ast.walk(rv)):
+                    return U(rv)
+                if rv is not None:
+                    # x = x.to(u.kg)…: the unit is that of the right-hand side whatever x was before
+                    r = self.unit_of_rebinding(rv, e.id, fn, cls, depth + 1)
+                    if r is not None:
+                        return r
             defs = self.local_defs(fn, e.id)
             real = [d for d in defs if d is not None]
             if not real:
@@ -133,6 +147,18 @@ class Units:
             if all(u is not None for u in us) and len({u[1] for u in us}) == 1:
                 return us[0]
             return None
+        return None
+
+    def unit_of_rebinding(self, rv, name, fn, cls, depth):
+        """unit of `name = <rv mentioning name>` when rv fixes the unit by itself (a `.to(<unit>)` on the way)"""
+        e = rv
+        while isinstance(e, ast.Call) and isinstance(e.func, ast.Attribute):
+            if e.func.attr == "to" and e.args and (_is_uexpr(e.args[0])):
+                return ("fixed", norm(e.args[0]))
+            if e.func.attr in UNIT_PRESERVING:
+                e = e.func.value
+                continue
+            break
         return None
 
     def attr_unit(self, cn, attr):
@@ -301,9 +327,25 @@ def r_mag(E):
                                 for a in ast.walk(fn):
                                     if isinstance(a, ast.Assign) and isinstance(a.targets[0], ast.Name) and any(
                                             isinstance(x, ast.Name) and x.id in flows for x in ast.walk(a.value)):
-                                        ops = {norm(c.func) for c in ast.walk(a.value) if isinstance(c, ast.Call)}
+                                        from ..astutil import callee_texts
+                                        ops = set()
+                                        for c in ast.walk(a.value):
+                                            if isinstance(c, ast.Call):
+                                                # index plumbing keeps the magnitudes: x.reindex(…), x.to_numpy(), x.fillna(0)
+                                                if isinstance(c.func, ast.Attribute) and c.func.attr in ("reindex", "to_numpy", "fillna") \
+                                                        and not (isinstance(c.func.value, ast.Name) and c.func.value.id == "np"):
+                                                    continue
+                                                ops |= callee_texts(c, fn)
                                         if ops <= {"np.maximum", "np.minimum"}:
                                             flows.add(a.targets[0].id)
+                                # the wrapped expression itself may be the element-wise max / min of the flows
+                                wops = set()
+                                for c in ast.walk(w):
+                                    if isinstance(c, ast.Call) and c is not w:
+                                        from ..astutil import callee_texts
+                                        wops |= callee_texts(c, fn)
+                                if not wops <= {"np.maximum", "np.minimum"}:
+                                    continue
                                 if srcs & flows:
                                     own = "self" in norm(_strip(recv)) or ".to(self.unit)" in norm(recv)
                                     if own:
